@@ -8,8 +8,7 @@ Import ListNotations.
 Open Scope string_scope.
 Open Scope R_scope.
 
-(* libm enters only through: `log` is the natural logarithm *)
-Definition libm_ok (fun1 : string -> R -> R) : Prop := forall x, fun1 "ln" x = ln x.
+(* libm enters only through Hetero.libm_ok: `log` is the natural logarithm *)
 
 (* x[i]->f of a pure-phase row, as registered by build_pure_phases, is  target - SI  *)
 Theorem pp_f_is_target_minus_si : forall fun1 fun2 (e : env) (toks : list (R * R)),
